@@ -34,100 +34,102 @@ macro "c07_unfold" "[" ls:Lean.Parser.Tactic.simpLemma,* "]" : tactic =>
 macro "c07_crunch" : tactic =>
   `(tactic| (simp [Except.map, ord4Test, V.ofBool, V.fresh, truthy, evalOutcome, relOutcome, notR] <;> try rfl))
 
-/-- split on whether each operand is a proxy, then unfold -/
-macro "c07_open" c:ident "[" ls:Lean.Parser.Tactic.simpLemma,* "]" : tactic =>
-  `(tactic| (cases hpl : ($c).left.px <;> cases hpr : ($c).right.px <;> c07_unfold [hpl, hpr, $ls,*]))
-
+/-- Unfold the condition and run `t`; when that does not go through, first split on whether each
+    operand is a proxy (needed exactly by the conditions that look at `is_sandboxed`). -/
+macro "c07_by" c:ident "[" ls:Lean.Parser.Tactic.simpLemma,* "]" " => " t:tacticSeq : tactic =>
+  `(tactic| first
+      | ((c07_unfold [$ls,*] <;> ($t)); done)
+      | (cases hpl : ($c).left.px <;> cases hpr : ($c).right.px <;> c07_unfold [hpl, hpr, $ls,*] <;> ($t)))
 
 theorem c07_assert_less : Correct "assert_less" cond_assert_less := by
   refine correct_of_noErr _ _ _ rfl fun c hl hr => ?_
-  c07_open c [cond_assert_less, hl, hr, cmpRel] <;>
+  c07_by c [cond_assert_less, hl, hr, cmpRel] =>
   cases h : pyCmp c.left.v c.right.v with
   | error e => cases e <;> c07_crunch
   | ok o => cases o <;> c07_crunch
 
 theorem c07_assert_less_equal : Correct "assert_less_equal" cond_assert_less_equal := by
   refine correct_of_noErr _ _ _ rfl fun c hl hr => ?_
-  c07_open c [cond_assert_less_equal, hl, hr, cmpRel] <;>
+  c07_by c [cond_assert_less_equal, hl, hr, cmpRel] =>
   cases h : pyCmp c.left.v c.right.v with
   | error e => cases e <;> c07_crunch
   | ok o => cases o <;> c07_crunch
 
 theorem c07_assert_greater : Correct "assert_greater" cond_assert_greater := by
   refine correct_of_noErr _ _ _ rfl fun c hl hr => ?_
-  c07_open c [cond_assert_greater, hl, hr, cmpRel] <;>
+  c07_by c [cond_assert_greater, hl, hr, cmpRel] =>
   cases h : pyCmp c.left.v c.right.v with
   | error e => cases e <;> c07_crunch
   | ok o => cases o <;> c07_crunch
 
 theorem c07_assert_greater_equal : Correct "assert_greater_equal" cond_assert_greater_equal := by
   refine correct_of_noErr _ _ _ rfl fun c hl hr => ?_
-  c07_open c [cond_assert_greater_equal, hl, hr, cmpRel] <;>
+  c07_by c [cond_assert_greater_equal, hl, hr, cmpRel] =>
   cases h : pyCmp c.left.v c.right.v with
   | error e => cases e <;> c07_crunch
   | ok o => cases o <;> c07_crunch
 
 theorem c07_assert_in : Correct "assert_in" cond_assert_in := by
   refine correct_of_noErr _ _ _ rfl fun c hl hr => ?_
-  c07_open c [cond_assert_in, hl, hr] <;>
+  c07_by c [cond_assert_in, hl, hr] =>
   cases h : pyIn c.left.v c.right.v with
   | error e => cases e <;> c07_crunch
   | ok o => cases o <;> c07_crunch
 
 theorem c07_assert_not_in : Correct "assert_not_in" cond_assert_not_in := by
   refine correct_of_noErr _ _ _ rfl fun c hl hr => ?_
-  c07_open c [cond_assert_not_in, hl, hr] <;>
+  c07_by c [cond_assert_not_in, hl, hr] =>
   cases h : pyIn c.left.v c.right.v with
   | error e => cases e <;> c07_crunch
   | ok o => cases o <;> c07_crunch
 
 theorem c07_assert_contains_subset : Correct "assert_contains_subset" cond_assert_contains_subset := by
   refine correct_of_noErr _ _ _ rfl fun c hl hr => ?_
-  c07_open c [cond_assert_contains_subset, hl, hr] <;>
+  c07_by c [cond_assert_contains_subset, hl, hr] =>
   cases h : pyAllIn c.left.v c.right.v with
   | error e => cases e <;> c07_crunch
   | ok o => cases o <;> c07_crunch
 
 theorem c07_assert_not_contains_subset : Correct "assert_not_contains_subset" cond_assert_not_contains_subset := by
   refine correct_of_noErr _ _ _ rfl fun c hl hr => ?_
-  c07_open c [cond_assert_not_contains_subset, hl, hr] <;>
+  c07_by c [cond_assert_not_contains_subset, hl, hr] =>
   cases h : pyAllIn c.left.v c.right.v with
   | error e => cases e <;> c07_crunch
   | ok o => cases o <;> c07_crunch
 
 theorem c07_assert_is : Correct "assert_is" cond_assert_is := by
   refine correct_of_noErr _ _ _ rfl fun c hl hr => ?_
-  c07_open c [cond_assert_is, hl, hr] <;>
+  c07_by c [cond_assert_is, hl, hr] =>
   cases h : sameObject c.left c.right <;> c07_crunch
 
 theorem c07_assert_is_not : Correct "assert_is_not" cond_assert_is_not := by
   refine correct_of_noErr _ _ _ rfl fun c hl hr => ?_
-  c07_open c [cond_assert_is_not, hl, hr] <;>
+  c07_by c [cond_assert_is_not, hl, hr] =>
   cases h : sameObject c.left c.right <;> c07_crunch
 
 theorem c07_assert_is_none : Correct "assert_is_none" cond_assert_is_none := by
   refine correct_of_noErr _ _ _ rfl fun c hl hr => ?_
-  c07_open c [cond_assert_is_none, hl, hr, pyIs_none_right, pyIs_none_left, pyIs_none_right_unwrapped, pyIs_none_left_unwrapped] <;>
+  c07_by c [cond_assert_is_none, hl, hr, pyIs_none_right, pyIs_none_left, pyIs_none_right_unwrapped, pyIs_none_left_unwrapped] =>
   cases h : isNoneVal c.left.v <;> c07_crunch
 
 theorem c07_assert_is_not_none : Correct "assert_is_not_none" cond_assert_is_not_none := by
   refine correct_of_noErr _ _ _ rfl fun c hl hr => ?_
-  c07_open c [cond_assert_is_not_none, hl, hr, pyIs_none_right, pyIs_none_left, pyIs_none_right_unwrapped, pyIs_none_left_unwrapped] <;>
+  c07_by c [cond_assert_is_not_none, hl, hr, pyIs_none_right, pyIs_none_left, pyIs_none_right_unwrapped, pyIs_none_left_unwrapped] =>
   cases h : isNoneVal c.left.v <;> c07_crunch
 
 theorem c07_assert_true : Correct "assert_true" cond_assert_true := by
   refine correct_of_noErr _ _ _ rfl fun c hl hr => ?_
-  c07_open c [cond_assert_true, hl, hr] <;>
+  c07_by c [cond_assert_true, hl, hr] =>
   cases h : truthy c.left.v <;> c07_crunch
 
 theorem c07_assert_false : Correct "assert_false" cond_assert_false := by
   refine correct_of_noErr _ _ _ rfl fun c hl hr => ?_
-  c07_open c [cond_assert_false, hl, hr] <;>
+  c07_by c [cond_assert_false, hl, hr] =>
   cases h : truthy c.left.v <;> c07_crunch
 
 theorem c07_assert_length_equal : Correct "assert_length_equal" cond_assert_length_equal := by
   refine correct_of_noErr _ _ _ rfl fun c hl hr => ?_
-  c07_open c [cond_assert_length_equal, hl, hr] <;>
+  c07_by c [cond_assert_length_equal, hl, hr] =>
   cases h : pyLen c.left.v with
   | error e => cases e <;> c07_crunch
   | ok n =>
@@ -136,7 +138,7 @@ theorem c07_assert_length_equal : Correct "assert_length_equal" cond_assert_leng
 
 theorem c07_assert_length_not_equal : Correct "assert_length_not_equal" cond_assert_length_not_equal := by
   refine correct_of_noErr _ _ _ rfl fun c hl hr => ?_
-  c07_open c [cond_assert_length_not_equal, hl, hr] <;>
+  c07_by c [cond_assert_length_not_equal, hl, hr] =>
   cases h : pyLen c.left.v with
   | error e => cases e <;> c07_crunch
   | ok n =>
@@ -145,7 +147,7 @@ theorem c07_assert_length_not_equal : Correct "assert_length_not_equal" cond_ass
 
 theorem c07_assert_length_less : Correct "assert_length_less" cond_assert_length_less := by
   refine correct_of_noErr _ _ _ rfl fun c hl hr => ?_
-  c07_open c [cond_assert_length_less, hl, hr, lenRel, cmpRel] <;>
+  c07_by c [cond_assert_length_less, hl, hr, lenRel, cmpRel] =>
   cases h : pyLen c.left.v with
   | error e => cases e <;> c07_crunch
   | ok n =>
@@ -158,7 +160,7 @@ theorem c07_assert_length_less : Correct "assert_length_less" cond_assert_length
 
 theorem c07_assert_length_less_equal : Correct "assert_length_less_equal" cond_assert_length_less_equal := by
   refine correct_of_noErr _ _ _ rfl fun c hl hr => ?_
-  c07_open c [cond_assert_length_less_equal, hl, hr, lenRel, cmpRel] <;>
+  c07_by c [cond_assert_length_less_equal, hl, hr, lenRel, cmpRel] =>
   cases h : pyLen c.left.v with
   | error e => cases e <;> c07_crunch
   | ok n =>
@@ -171,7 +173,7 @@ theorem c07_assert_length_less_equal : Correct "assert_length_less_equal" cond_a
 
 theorem c07_assert_length_greater : Correct "assert_length_greater" cond_assert_length_greater := by
   refine correct_of_noErr _ _ _ rfl fun c hl hr => ?_
-  c07_open c [cond_assert_length_greater, hl, hr, lenRel, cmpRel] <;>
+  c07_by c [cond_assert_length_greater, hl, hr, lenRel, cmpRel] =>
   cases h : pyLen c.left.v with
   | error e => cases e <;> c07_crunch
   | ok n =>
@@ -184,7 +186,7 @@ theorem c07_assert_length_greater : Correct "assert_length_greater" cond_assert_
 
 theorem c07_assert_length_greater_equal : Correct "assert_length_greater_equal" cond_assert_length_greater_equal := by
   refine correct_of_noErr _ _ _ rfl fun c hl hr => ?_
-  c07_open c [cond_assert_length_greater_equal, hl, hr, lenRel, cmpRel] <;>
+  c07_by c [cond_assert_length_greater_equal, hl, hr, lenRel, cmpRel] =>
   cases h : pyLen c.left.v with
   | error e => cases e <;> c07_crunch
   | ok n =>
@@ -197,7 +199,7 @@ theorem c07_assert_length_greater_equal : Correct "assert_length_greater_equal" 
 
 theorem c07_assert_is_instance : Correct "assert_is_instance" cond_assert_is_instance := by
   refine correct_of_noErr _ _ _ rfl fun c hl hr => ?_
-  c07_open c [cond_assert_is_instance, hl, hr, widenCls_eq] <;>
+  c07_by c [cond_assert_is_instance, hl, hr, widenCls_eq] =>
   cases h1 : pyEq c.right.v (.typ .int) <;> cases h2 : pyEq c.right.v (.typ .float) <;>
   c07_unfold [h1, h2] <;>
   (first
@@ -210,7 +212,7 @@ theorem c07_assert_is_instance : Correct "assert_is_instance" cond_assert_is_ins
 
 theorem c07_assert_not_is_instance : Correct "assert_not_is_instance" cond_assert_not_is_instance := by
   refine correct_of_noErr _ _ _ rfl fun c hl hr => ?_
-  c07_open c [cond_assert_not_is_instance, hl, hr, widenCls_eq] <;>
+  c07_by c [cond_assert_not_is_instance, hl, hr, widenCls_eq] =>
   cases h1 : pyEq c.right.v (.typ .int) <;> cases h2 : pyEq c.right.v (.typ .float) <;>
   c07_unfold [h1, h2] <;>
   (first
@@ -223,7 +225,7 @@ theorem c07_assert_not_is_instance : Correct "assert_not_is_instance" cond_asser
 
 theorem c07_assert_equal : Correct "assert_equal" cond_assert_equal := by
   refine correct_of_noErr _ _ _ rfl fun c hl hr => ?_
-  c07_open c [cond_assert_equal, hl, hr, equalRel] <;>
+  c07_by c [cond_assert_equal, hl, hr, equalRel] =>
   cases hd : deltaOf c.delta with
   | error e => cases e <;> c07_crunch
   | ok d =>
@@ -234,7 +236,7 @@ theorem c07_assert_equal : Correct "assert_equal" cond_assert_equal := by
 
 theorem c07_assert_almost_equal : Correct "assert_almost_equal" cond_assert_almost_equal := by
   refine correct_of_noErr _ _ _ rfl fun c hl hr => ?_
-  c07_open c [cond_assert_almost_equal, hl, hr, equalRel] <;>
+  c07_by c [cond_assert_almost_equal, hl, hr, equalRel] =>
   cases hd : deltaOf c.delta with
   | error e => cases e <;> c07_crunch
   | ok d =>
@@ -245,7 +247,7 @@ theorem c07_assert_almost_equal : Correct "assert_almost_equal" cond_assert_almo
 
 theorem c07_assert_not_equal : Correct "assert_not_equal" cond_assert_not_equal := by
   refine correct_of_noErr _ _ _ rfl fun c hl hr => ?_
-  c07_open c [cond_assert_not_equal, hl, hr, equalRel] <;>
+  c07_by c [cond_assert_not_equal, hl, hr, equalRel] =>
   cases hd : deltaOf c.delta with
   | error e => cases e <;> c07_crunch
   | ok d =>
@@ -256,7 +258,7 @@ theorem c07_assert_not_equal : Correct "assert_not_equal" cond_assert_not_equal 
 
 theorem c07_assert_not_almost_equal : Correct "assert_not_almost_equal" cond_assert_not_almost_equal := by
   refine correct_of_noErr _ _ _ rfl fun c hl hr => ?_
-  c07_open c [cond_assert_not_almost_equal, hl, hr, equalRel] <;>
+  c07_by c [cond_assert_not_almost_equal, hl, hr, equalRel] =>
   cases hd : deltaOf c.delta with
   | error e => cases e <;> c07_crunch
   | ok d =>
@@ -267,7 +269,7 @@ theorem c07_assert_not_almost_equal : Correct "assert_not_almost_equal" cond_ass
 
 theorem c07_assert_regex : Correct "assert_regex" cond_assert_regex := by
   refine correct_of_noErr _ _ _ rfl fun c hl hr => ?_
-  c07_open c [cond_assert_regex, hl, hr, regexRel] <;>
+  c07_by c [cond_assert_regex, hl, hr, regexRel] =>
   cases hv : c.left.v <;> try c07_crunch
   all_goals
     rename_i ps
@@ -277,7 +279,7 @@ theorem c07_assert_regex : Correct "assert_regex" cond_assert_regex := by
 
 theorem c07_assert_not_regex : Correct "assert_not_regex" cond_assert_not_regex := by
   refine correct_of_noErr _ _ _ rfl fun c hl hr => ?_
-  c07_open c [cond_assert_not_regex, hl, hr, regexRel] <;>
+  c07_by c [cond_assert_not_regex, hl, hr, regexRel] =>
   cases hv : c.left.v <;> try c07_crunch
   all_goals
     rename_i ps
@@ -287,7 +289,7 @@ theorem c07_assert_not_regex : Correct "assert_not_regex" cond_assert_not_regex 
 
 theorem c07_assert_output : Correct "assert_output" cond_assert_output := by
   refine correct_of_noErr _ _ _ rfl fun c hl hr => ?_
-  c07_open c [cond_assert_output, hl, hr, outputRel, deltaOf] <;>
+  c07_by c [cond_assert_output, hl, hr, outputRel, deltaOf] =>
   cases ho : c.output .left with
   | error e => cases e <;> c07_crunch
   | ok o =>
@@ -299,7 +301,7 @@ theorem c07_assert_output : Correct "assert_output" cond_assert_output := by
 
 theorem c07_assert_prints : Correct "assert_prints" cond_assert_prints := by
   refine correct_of_noErr _ _ _ rfl fun c hl hr => ?_
-  c07_open c [cond_assert_prints, hl, hr, outputRel, deltaOf] <;>
+  c07_by c [cond_assert_prints, hl, hr, outputRel, deltaOf] =>
   cases ho : c.output .left with
   | error e => cases e <;> c07_crunch
   | ok o =>
@@ -311,7 +313,7 @@ theorem c07_assert_prints : Correct "assert_prints" cond_assert_prints := by
 
 theorem c07_assert_not_output : Correct "assert_not_output" cond_assert_not_output := by
   refine correct_of_noErr _ _ _ rfl fun c hl hr => ?_
-  c07_open c [cond_assert_not_output, hl, hr, outputRel, deltaOf] <;>
+  c07_by c [cond_assert_not_output, hl, hr, outputRel, deltaOf] =>
   cases ho : c.output .left with
   | error e => cases e <;> c07_crunch
   | ok o =>
@@ -323,7 +325,7 @@ theorem c07_assert_not_output : Correct "assert_not_output" cond_assert_not_outp
 
 theorem c07_assert_output_contains : Correct "assert_output_contains" cond_assert_output_contains := by
   refine correct_of_noErr _ _ _ rfl fun c hl hr => ?_
-  c07_open c [cond_assert_output_contains, hl, hr, outputContainsRel] <;>
+  c07_by c [cond_assert_output_contains, hl, hr, outputContainsRel] =>
   cases hex : truthy c.exact <;> cases ha : isAscii (strOfV c c.right) <;> (try c07_unfold [ha]) <;>
   cases ho : c.output .left with
   | error e => cases e <;> c07_crunch
@@ -334,7 +336,7 @@ theorem c07_assert_output_contains : Correct "assert_output_contains" cond_asser
 
 theorem c07_assert_not_output_contains : Correct "assert_not_output_contains" cond_assert_not_output_contains := by
   refine correct_of_noErr _ _ _ rfl fun c hl hr => ?_
-  c07_open c [cond_assert_not_output_contains, hl, hr, outputContainsRel] <;>
+  c07_by c [cond_assert_not_output_contains, hl, hr, outputContainsRel] =>
   cases hex : truthy c.exact <;> cases ha : isAscii (strOfV c c.right) <;> (try c07_unfold [ha]) <;>
   cases ho : c.output .left with
   | error e => cases e <;> c07_crunch
@@ -345,7 +347,7 @@ theorem c07_assert_not_output_contains : Correct "assert_not_output_contains" co
 
 theorem c07_assert_output_regex : Correct "assert_output_regex" cond_assert_output_regex := by
   refine correct_of_noErr _ _ _ rfl fun c hl hr => ?_
-  c07_open c [cond_assert_output_regex, hl, hr, outputRegexRel] <;>
+  c07_by c [cond_assert_output_regex, hl, hr, outputRegexRel] =>
   cases ho : c.output .left with
   | error e => cases e <;> c07_crunch
   | ok o =>
@@ -357,7 +359,7 @@ theorem c07_assert_output_regex : Correct "assert_output_regex" cond_assert_outp
 
 theorem c07_assert_not_output_regex : Correct "assert_not_output_regex" cond_assert_not_output_regex := by
   refine correct_of_noErr _ _ _ rfl fun c hl hr => ?_
-  c07_open c [cond_assert_not_output_regex, hl, hr, outputRegexRel] <;>
+  c07_by c [cond_assert_not_output_regex, hl, hr, outputRegexRel] =>
   cases ho : c.output .left with
   | error e => cases e <;> c07_crunch
   | ok o =>
@@ -441,16 +443,6 @@ theorem c07_silent_iff_holds (name : String) (h : name ∈ provedNames) :
 theorem c07_error_operand_fails (cond : CondExpr) (c : Ctx) (h : anyErr c = true) :
     outcome wrapperGuard cond c = .fires := by
   rw [outcome_guard, h]; rfl
-
-/-- Strip the proxies from both operands. -/
-def Ctx.unwrapAll (c : Ctx) : Ctx := { c with left := c.left.unwrapped, right := c.right.unwrapped }
-
-theorem rel_unwrapAll (name : String) (rel : Ctx → Res Bool) (h : relOf name = some rel) (c : Ctx) :
-    rel c.unwrapAll = rel c := by
-  unfold relOf at h
-  split at h <;> first
-    | (cases h; rfl)
-    | (cases h)
 
 /-- **Plain value or proxied result.**  For every proved assertion the outcome is the same whether
     an operand is passed raw or wrapped in a `SandboxResult` proxy (any of the four combinations). -/
